@@ -46,6 +46,30 @@ def blocking_sites(eng, fb, f):
     return out
 
 
+def _body_sources(f, var, body):
+    """right-hand sides of every (re)definition of local `var` inside the loop body, or None when one of them is
+    not a plain assignment / initialisation"""
+    out = []
+    for b in body:
+        for e in f.blocks[b].elems:
+            if e["k"] != "S":
+                continue
+            st = f.stmts[e["s"]]
+            if var not in assigned_paths(f, st):
+                continue
+            if st["k"] == "BinaryOperator" and st["op"] == "=":
+                out.append(f.children(st)[1])
+            elif st["k"] == "DeclStmt":
+                for d in st["decls"]:
+                    if "l:" + d["name"] == var:
+                        if not d.get("init"):
+                            return None
+                        out.append(f.s(d["init"]))
+            else:
+                return None
+    return out
+
+
 def classify_loops(f):
     """every natural loop of f: (header, kind, detail) with kind in
        'cas-retry'  an exit edge is decided by the result of a compare_exchange
@@ -86,6 +110,25 @@ def classify_loops(f):
                     if d["id"] in aops and aops[d["id"]]["op"] == "load":
                         atoms.append(aops[d["id"]])
                 adv = [v for v in vars_ if v in assigned]
+                # a local that the body only ever refreshes from atomic loads stands for those atomics:
+                # `bool more = a.load() != 0; while (more) { yield(); more = a.load() != 0; }`
+                for v in list(adv):
+                    srcs = _body_sources(f, v, body)
+                    if not srcs:
+                        continue
+                    got = []
+                    for src in srcs:
+                        ls = [aops[d["id"]] for d in f.descendants(src) if d["id"] in aops and aops[d["id"]]["op"] == "load"]
+                        others = [d for d in f.descendants(src) if d["k"] == "DeclRefExpr" and
+                                  d["d"].get("k") in ("local", "param") and path(f, d) in assigned and
+                                  not any(path(f, d) == l_["obj"] for l_ in ls)]
+                        if not ls or others:
+                            got = None
+                            break
+                        got += ls
+                    if got:
+                        atoms += got
+                        adv.remove(v)
                 if atoms and not any(root_var(a["obj"]) in assigned for a in atoms if a["obj"]):
                     k = "spin-wait"
                     detail = "waits for %s to change" % ", ".join(sorted({a["obj"] or "?" for a in atoms}))
